@@ -54,6 +54,7 @@ Definition names_unique (q : quantity_decl) : bool :=
 Definition failing_exact_anchors := map fst (filter (fun a => negb (anchor_exact a)) exact_anchors).
 Definition failing_offset_anchors := map fst (filter (fun a => negb (anchor_offset a)) offset_anchors).
 Definition failing_seven_digit_anchors := map fst (filter (fun a => negb (anchor_seven a)) seven_digit_anchors).
+Definition failing_turn_anchors := map fst (filter (fun a => negb (anchor_seven a)) turn_anchors).
 Definition failing_prefixes := List.app (map fst (filter (fun p => negb (prefix_ok10 p)) decimal_prefixes)) (map fst (filter (fun p => negb (prefix_ok2 p)) binary_prefixes)).
 Definition quantities_without_coherent_unit := map q_mod (filter (fun q => negb (has_coherent_unit q)) si_quantities).
 Definition failing_base_units := map b_unit (filter (fun b => negb (existsb (fun i => base_ok i b) (seq 0 (List.length si_base)))) si_base).
